@@ -114,8 +114,16 @@ def build_random_unit(ctx):
     # GaussianImpl::setSeed
     def x_gseed(r):
         r.lit("base-call", "RandomImpl::setSeed(seed)", "RandomImpl_setSeed(self, seed)", 1)
-    member_fn(r"void setSeed\(int seed\) override\s*", "GaussianImpl::setSeed",
-              "void GaussianImpl_setSeed(struct RandomImpl* self, int seed)", ["nextGaussianIsValid"], x_gseed)
+    try:
+        member_fn(r"void setSeed\(int seed\) override\s*", "GaussianImpl::setSeed",
+                  "void GaussianImpl_setSeed(struct RandomImpl* self, int seed)", ["nextGaussianIsValid"], x_gseed)
+    except ExtractionError:
+        # virtual-dispatch rule: no override of setSeed inside GaussianImpl -> a Gaussian object's
+        # setSeed() is the inherited RandomImpl::setSeed (cut above); the contract of
+        # GaussianImpl_setSeed is then enforced on that inherited body
+        ctx.add_function(RANDOM_CPP, "GaussianImpl::setSeed (no override in class: resolves to inherited RandomImpl::setSeed)", 0, 0, "", "M2",
+                         [], [dict(rule="virtual dispatch resolved to base class method", hits=1, examples=["RandomImpl::setSeed"])])
+        parts.append("void GaussianImpl_setSeed(struct RandomImpl* self, int seed)\n{ RandomImpl_setSeed(self, seed); }\n")
 
     # Random::Uniform::getIntValue
     c = cut_function(RANDOM_CPP, r"int Random::Uniform::getIntValue\(\)\s*", "Random::Uniform::getIntValue", expect_total=1)
@@ -181,6 +189,8 @@ def main(ctx):
       cbmc_args=UNW, min_obligations=3, function="SimTK_SFMT::init_gen_rand",
       bounded="seeding recurrence checked for %d concrete seeds only (620 chained symbolic multiplier equivalences: no back end finishes)" % 6, timeout=600)
 
+    J(cbmc_unit, "sfmt.fill_array64.state", sfmt_srcs, "h_fill_array64_state", no_dfcc=True, cc_args=sfmt_cc,
+      cbmc_args=UNW + CHKF, min_obligations=2, function="SimTK_SFMT::fill_array64 + gen_rand_array (size 1024): saved state", timeout=900)
     if thorough:
         J(cbmc_unit, "sfmt.fill_array64", sfmt_srcs, "h_fill_array64_plain", no_dfcc=True, cc_args=sfmt_cc,
           cbmc_args=UNW + CHKF, min_obligations=3, function="SimTK_SFMT::fill_array64 + gen_rand_array (size 1024 = RandomImpl::bufferSize)", timeout=2400)
@@ -218,7 +228,7 @@ def main(ctx):
     ctx.assume("SFMTData seen from Random.cpp through the abstract contract of init_gen_rand/fill_array64; those contracts' clauses (idx==N32, initialized) are the ones proved on the real SFMT.cpp in units sfmt.*")
     ctx.assume("UniformImpl class invariant range==max-min, min<max, all finite (constructor establishes it; setMin/setMax proved to keep range==max-min)")
     if not thorough:
-        ctx.assume("quick tier: fill_array64/gen_rand_array functional postcondition (size 1024) is discharged only in the thorough tier (6.5 min, loop-free full-domain harness)")
+        ctx.assume("quick tier: of fill_array64/gen_rand_array (size 1024) only the saved-state clause, bounds and frame are discharged; the recurrence clause for the 512 produced words is discharged in the thorough tier (6.5 min, loop-free full-domain harness)")
     ctx.not_decided += ["configured mean and variance within statistical tolerance (statistical statement, no contract expresses it)",
                         "fill_array64/gen_rand_array for sizes other than RandomImpl::bufferSize",
                         "init_by_array, gen_rand32, fill_array32 (not used by Random)"]
